@@ -176,8 +176,9 @@ class Scheduler(object):
       e, ts.pending_exc = ts.pending_exc, None
       raise e() if isinstance(e, type) else e
 
-  def yield_point(self, tag=None, ts=None):
-    """A scheduling point that does not block."""
+  def yield_point(self, tag=None, ts=None, deliver=True):
+    """A scheduling point that does not block.  deliver=False: other threads may run here, but no asynchronous exception
+    or signal handler is started in this thread (the interpreter has no eval-breaker check at this place)."""
     ts = ts or self.me()
     if ts is None:
       return
@@ -221,7 +222,8 @@ class Scheduler(object):
           self._switch(ts, nxt)
     finally:
       ts.in_sched = False
-    self._deliver(ts)
+    if deliver:
+      self._deliver(ts)
 
   def block(self, ts, deadline, desc):
     """Blocks the current thread until woken or until the (virtual) deadline. Returns the wake reason."""
@@ -914,6 +916,27 @@ class module_locks(object):  # pylint: disable=invalid-name
 
 
 # ---------------------------------------------------------------------- line-level yield points
+_WITH_EXITS = {}
+
+
+def _with_exit_offsets(code):
+  """Offsets at which the normal-exit clean-up of a `with` statement starts (LOAD_CONST None x3; CALL 2).  A LINE event is
+  reported there (for the line of the `with`), but CPython checks its eval breaker - where asynchronous exceptions and
+  signal handlers start - only after the call of __exit__: an exception 'between the body and __exit__' cannot happen."""
+  out = _WITH_EXITS.get(code)
+  if out is None:
+    import dis  # pylint: disable=g-import-not-at-top
+    ins = list(dis.get_instructions(code))
+    out = set()
+    for i in range(len(ins) - 3):
+      a, b, c, d = ins[i:i + 4]
+      if (a.opname == b.opname == c.opname == 'LOAD_CONST' and a.argval is None and b.argval is None and c.argval is None and
+          d.opname == 'CALL' and d.arg == 2):
+        out.add(a.offset)
+    _WITH_EXITS[code] = out
+  return out
+
+
 def _on_line(code, line):
   s = ACTIVE[0]
   if s is None or s.aborted:
@@ -921,7 +944,14 @@ def _on_line(code, line):
   ts = s.by_ident.get(_get_ident())
   if ts is None or ts.in_sched or ts.status == 'done':
     return None
-  s.yield_point(('line', code.co_name, line), ts)
+  exits = _with_exit_offsets(code)
+  deliver = True
+  if exits:
+    try:
+      deliver = sys._getframe(1).f_lasti not in exits  # pylint: disable=protected-access
+    except ValueError:
+      pass
+  s.yield_point(('line', code.co_name, line), ts, deliver=deliver)
   return None
 
 
